@@ -165,7 +165,7 @@ class CylGrid:
     """Cells in (r, phi, z); bounding primitive = cylinder(r_out - eps_r, H - eps_z) minus cylinder(r_in + eps_r)."""
     kind = "cyl"
 
-    def __init__(self, n_r, n_phi, n_z, r_in, r_out, height, period, eps_rel=1e-5):
+    def __init__(self, n_r, n_phi, n_z, r_in, r_out, height, period, eps_rel=1e-5, axis_hole=True):
         self.shape = (int(n_r), int(n_phi), int(n_z))
         self.rmin = float(r_in)
         self.dr = (r_out - r_in) / n_r
@@ -174,7 +174,8 @@ class CylGrid:
         self.dphi = period / n_phi
         self.nsect = int(round(360.0 / period))
         self.nsurf = self.shape[1] * self.nsect if self.shape[1] > 1 else 0
-        self.r_lo = r_in + eps_rel * self.dr
+        # axis_hole: with r_in = 0 the code under test still subtracts an inner cylinder of radius eps_rel * dr
+        self.r_lo = r_in + eps_rel * self.dr if (r_in > 0 or axis_hole) else 0.0
         self.r_hi = r_out - eps_rel * self.dr
         self.z_hi = height - eps_rel * self.dz
         self.rb = math.sqrt(r_out * r_out + height * height)
@@ -210,7 +211,7 @@ class CylGrid:
         for m in range(1, self.shape[0]):
             for r in _cyl_band(cr, self.rmin + m * self.dr, delta, ta, tb):
                 out.append((r[0], r[1], 0, m, False))
-        for c in (self.r_lo, self.r_hi):
+        for c in ((self.r_lo, self.r_hi) if self.r_lo > 0 else (self.r_hi,)):
             for r in _cyl_band(cr, c, delta, ta, tb):
                 out.append((r[0], r[1], 0, -1, True))
         for m in range(1, self.shape[2]):
